@@ -421,3 +421,7 @@ def run(chk):
     if fi is not None:
         chk.guard("O19.4", TRANSLATOR, wrapping_rules, chk, fi)
     chk.guard("O19.5", TRANSLATOR, construct_rules, chk)
+    # the pipeline translator overrides the tree walk for `pipeline` lists: same index / location rules
+    from . import c05
+
+    chk.guard("O5.3", c05.PIPELINE, c05.linking_loop, chk)
